@@ -35,7 +35,7 @@ bc == IF IsPeerHop THEN B(k + 1) ELSE B(k)            \* construction-time accum
 
 Init == /\ n \in 1..MaxN /\ cons \in BOOLEAN /\ peer \in BOOLEAN
         /\ cut \in 1..MaxN /\ cut <= n
-        /\ (peer => cut > 1)                           \* core ASes (entry 1) have no peering links
+        \* peer /\ cut = 1: the peer entry of the segment's first AS entry (a core AS with a peering link)
         /\ (~peer => n >= 2 /\ (cons => cut < n) /\ (~cons => cut < n))  \* at least two hops unless peering
         /\ k = (IF cons THEN cut ELSE n)
         /\ phase = "ingress"
